@@ -172,6 +172,19 @@ pub fn case(sink: &mut Sink, r: &mut Rng, v: &Value, class: &str) {
         Ok(back) => sink.oracle(back == *v, "canonical text parses back to a different value", &replay),
         Err(_) => sink.oracle(false, "canonical text is not valid JSON", &replay),
     }
+    // ... and through the crate's own readers (they feed the canonicaliser when a document is re-encoded)
+    {
+        use in_toto::interchange::JsonPretty;
+        let readers: Vec<(&str, Option<Value>)> = vec![
+            ("Json::from_slice", Json::from_slice::<Value>(&bytes).ok()),
+            ("Json::from_reader", Json::from_reader::<_, Value>(std::io::Cursor::new(bytes.clone())).ok()),
+            ("JsonPretty::from_slice", JsonPretty::from_slice::<Value>(&bytes).ok()),
+            ("JsonPretty::from_reader", JsonPretty::from_reader::<_, Value>(std::io::Cursor::new(bytes.clone())).ok()),
+        ];
+        for (name, back) in readers {
+            sink.oracle(back.as_ref() == Some(v), &format!("canonical text read with {} is not the value that was encoded", name), &replay);
+        }
+    }
     sink.oracle(scan_canonical(&bytes), "whitespace outside strings in canonical text", &replay);
     sink.oracle(keys_sorted(&bytes), "object members of the canonical text are not sorted by code point", &replay);
     // the model's strict reader must read the implementation's text as the same value
@@ -183,6 +196,8 @@ pub fn case(sink: &mut Sink, r: &mut Rng, v: &Value, class: &str) {
             Ok(v2) => {
                 let same = Json::canonicalize(&v2).ok().as_deref() == Some(&bytes[..]);
                 sink.oracle(same, "another spelling of the same value canonicalizes differently", &format!("{} // spelling {}", replay, hex(text.as_bytes())));
+                let own = Json::from_slice::<Value>(text.as_bytes()).ok().and_then(|v3| Json::canonicalize(&v3).ok());
+                sink.oracle(own.as_deref() == Some(&bytes[..]), "another spelling of the same value, read with the crate's own reader, canonicalizes differently", &format!("{} // spelling {}", replay, hex(text.as_bytes())));
                 sink.stat("spellings/ok");
             }
             Err(_) => {
